@@ -85,7 +85,9 @@ def _replay_shard(chk, name, cases, nrandom, seed):
     if cases is not None:
         inp = chk.path(f"cases-{name}.ndjson")
         vf.write_ndjson(inp, cases)
-    vf.qxv("saslchoice", trace, in_path=inp, seed=seed, tier=chk.tier, opts={"random": nrandom} if nrandom else None)
+    r = vf.qxv("saslchoice", trace, in_path=inp, seed=seed, tier=chk.tier, opts={"random": nrandom} if nrandom else None, check=False)
+    if r["rc"] != 0:   # C05 has no crash clause: a dying harness is a machinery failure, never a violation
+        raise vf.MachineryError(f"qxv saslchoice exited {r['rc']}: {'; '.join(r['sanitizer'][:3])}\n{r['stderr'][-2000:]}")
     s = vf.tlc_trace("SaslChoiceTrace.tla", "SaslChoiceTrace.cfg", trace, tag="SaslChoiceTrace-" + name, heap="4g")
     return s, trace
 
@@ -101,7 +103,7 @@ def run(chk, replay=None):
     #    (c) seeded random cases over the whole name universe (generated by the driver)
     shards = []
     if replay:
-        cases = [b for b in vf.read_ndjson(replay) if "c" in b]
+        cases = [b for b in vf.read_ndjson(replay) if "c" in b and "e" not in b]
         shards.append(("replay", cases, 0))
         gen_stats = {}
     else:
@@ -120,13 +122,15 @@ def run(chk, replay=None):
     for n, res in mc_fut.result():
         chk.mc(res, n)
     tot = {"cases": 0, "observations": 0, "nonempty": 0, "ndiv": 0, "lines": 0}
-    viol, divs, per_shard = [], [], {}
+    viol, divs, per_shard, dist = [], [], {}, {}
     for name, f in futs:
         s, trace = f.result()
         for k in tot:
             tot[k] += s[k]
         per_shard[name] = {"cases": s["cases"], "violating_observations": len(s["viol"]), "diverged": s["ndiv"], "tlc_wall_s": s["wall_s"]}
         divs += [dict(d, shard=name) for d in s["divs"]]
+        for k, n in s["dist"].items():
+            dist[k] = dist.get(k, 0) + n
         if s["viol"]:
             want = {v["k"] for v in s["viol"]}
             lines = {}
@@ -146,6 +150,11 @@ def run(chk, replay=None):
     chk.cov["diverged_executions"] = tot["ndiv"]
     chk.cov["first_divergences"] = divs[:3]
     chk.cov["generation"] = gen_stats
+    chk.cov["model_choice_distribution"] = dist   # vacuity guard: every kind of outcome occurs among the validated cases
+    if not replay:
+        empty = sorted(k for k, n in dist.items() if n == 0)
+        if empty:
+            raise vf.MachineryError(f"C05 self-test: no validated case has outcome kind {empty} (vacuous exploration)")
     chk.cov["shards"] = per_shard
     chk.cov["exhaustive"] = not replay
     chk.cov["rule"] = (
